@@ -583,7 +583,7 @@ pub fn gen_c08(rng: &mut Rng, tier: Tier) -> MsgScn {
     let mut creds = vec![to_cred(&base, 0)];
     let mut pres = vec![PresSpec::Direct { cred: 0, picks: (0..base.discs.len()).collect() }];
     let mut cases = Vec::new();
-    let mk_case = |b: Base, rng: &mut Rng| Case { base: b, faults: vec![], wire: vec![], fmt: rand_fmt(rng), session: None, resolver: Resolver::Directory, kb_enc: KbEnc::Absent, extra: vec![], expand: None, hold_s: 0, escapes: false, extra_raw: None };
+    let mk_case = |b: Base, rng: &mut Rng| Case { base: b, faults: vec![], wire: vec![], fmt: rand_fmt(rng), session: None, resolver: Resolver::Directory, kb_enc: KbEnc::Absent, extra: vec![], expand: None, hold_s: 0, escapes: false, extra_raw: None, member_order: None };
     cases.push(mk_case(Base::Pres(0), rng));
     // well-formed credential: every subset of its disclosures must give the algorithm's result
     let mut c = mk_case(Base::Cred(0), rng);
